@@ -34,10 +34,61 @@ GOENV = dict(os.environ, GOFLAGS="-mod=mod", GOPROXY="off", GOSUMDB="off", GOTOO
              CGO_ENABLED=os.environ.get("CGO_ENABLED", "1"))
 
 
+MEM_LIMIT_KB = int(float(os.environ.get("VERIF_MEM_LIMIT_GB", "20")) * 1024 * 1024)
+
+
+def _group_rss_kb(pgid):
+    """Resident memory of all processes of a process group (the command, go test, the test binary, its children)."""
+    total = 0
+    for d in os.listdir("/proc"):
+        if not d.isdigit():
+            continue
+        try:
+            with open(f"/proc/{d}/stat") as f:
+                st = f.read()
+            if int(st[st.rindex(")") + 2:].split()[2]) != pgid:
+                continue
+            with open(f"/proc/{d}/statm") as f:
+                total += int(f.read().split()[1]) * 4
+        except (OSError, ValueError, IndexError):
+            continue
+    return total
+
+
 def sh(cmd, cwd=None, env=None, timeout=None):
-    p = subprocess.run(cmd, cwd=cwd, env=env, stdout=subprocess.PIPE, stderr=subprocess.STDOUT,
-                       timeout=timeout, text=True, errors="replace")
-    return p.returncode, p.stdout
+    """Run a command in a process group of its own; the whole group is killed when it runs past `timeout` seconds or
+    holds more than VERIF_MEM_LIMIT_GB of memory (a change to the code under test can make a harness run away; the
+    check must come back with a verdict, not take the machine down). Returns (exit status, combined output)."""
+    import signal
+    import threading
+    p = subprocess.Popen(cmd, cwd=cwd, env=env, stdout=subprocess.PIPE, stderr=subprocess.STDOUT, text=True,
+                         errors="replace", start_new_session=True)
+    why = []
+    done = threading.Event()
+
+    def watch():
+        t0 = time.time()
+        while not done.wait(1.0):
+            if timeout and time.time() - t0 > timeout:
+                why.append(f"[verif: killed after {int(timeout)} s (timeout)]")
+            elif _group_rss_kb(p.pid) > MEM_LIMIT_KB:
+                why.append(f"[verif: killed, more than {MEM_LIMIT_KB // (1024 * 1024)} GB of memory in use (memory limit)]")
+            else:
+                continue
+            try:
+                os.killpg(p.pid, signal.SIGKILL)
+            except OSError:
+                pass
+            return
+
+    th = threading.Thread(target=watch, daemon=True)
+    th.start()
+    out, _ = p.communicate()
+    done.set()
+    th.join()
+    if why:
+        return (p.returncode if p.returncode else -9), (out or "") + "\n" + why[0] + "\n"
+    return p.returncode, out
 
 
 class Lock:
@@ -311,7 +362,8 @@ def step_harness_one(spec, h, tier, seed, log, race=False, extra_env=None, optio
         tail = "\n".join(out.splitlines()[-60:])
         log.append("harness did not produce a result (build failure or crash):\n" + tail)
         CRASH.append({"test": h["test"], "pkg": h["pkg"], "output_tail": tail,
-                      "panic": "panic:" in out or "fatal error:" in out, "timeout": "test timed out" in out})
+                      "panic": "panic:" in out or "fatal error:" in out, "timeout": "test timed out" in out or "(timeout)]" in out,
+                      "memory": "(memory limit)]" in out})
         return None
     if race:
         if h.get("race_only"):
@@ -516,7 +568,8 @@ def check(prop, tier):
         if not harness_ok:
             broken.append("harness did not run to completion (the implementation no longer builds with the harness, panicked under it, or hung)")
             for c in CRASH:
-                kind = "panic in the process under test" if c["panic"] else ("hang: go test timed out" if c["timeout"] else "build failure or crash")
+                kind = ("panic in the process under test" if c["panic"] else "hang: go test timed out" if c["timeout"]
+                        else "the harness process ran away with memory and was killed" if c.get("memory") else "build failure or crash")
                 broken.append(f"{c['pkg']} {c['test']}: {kind}\n{c['output_tail'][-3000:]}")
         for f in corr_fails[:5]:
             broken.append(f"correspondence {f['key']}: case {f['case'][:300]} real={f['real'][:200]} model={f['model'][:200]}")
